@@ -699,7 +699,16 @@ class CtxAwareTransformer(NodeTransformer):
         ups = set()
         for targ in node.targets:
             if isinstance(targ, Tuple | List):
-                ups.update(leftmostname(elt) for elt in targ.elts)
+                # nested targets bind every name: ``a, (b, c) = ...``
+                elts = list(targ.elts)
+                while elts:
+                    elt = elts.pop()
+                    if isinstance(elt, Starred):
+                        elt = elt.value
+                    if isinstance(elt, Tuple | List):
+                        elts.extend(elt.elts)
+                    else:
+                        ups.add(leftmostname(elt))
             elif isinstance(targ, BinOp):
                 newnode = self.try_subproc_toks(node)
                 if newnode is node:
